@@ -7,6 +7,7 @@ c14_gone  a module that exists only in sys.modules; `hide_gone()` makes its clas
 """
 import sys
 import types
+import weakref
 
 from persistent import Persistent
 
@@ -15,9 +16,14 @@ class Node(Persistent):
     pass
 
 
+NEW_ARGS = weakref.WeakKeyDictionary()      # object -> the arguments its __new__ was called with
+
+
 class NodeNA(Persistent):
     def __new__(cls, *args):
-        return Persistent.__new__(cls)
+        self = Persistent.__new__(cls)
+        NEW_ARGS[self] = args
+        return self
 
     def __getnewargs__(self):
         return self.__dict__.get('_v_na', ())
@@ -32,7 +38,9 @@ class Gone(Persistent):
 
 class GoneNA(Persistent):
     def __new__(cls, *args):
-        return Persistent.__new__(cls)
+        self = Persistent.__new__(cls)
+        NEW_ARGS[self] = args
+        return self
 
     def __getnewargs__(self):
         return self.__dict__.get('_v_na', ())
